@@ -1,5 +1,5 @@
 HOOK_COMMITS = ['261214f']
-FIX_COMMITS = ['6ab1b61', 'aa5da3f', '23893cd']
+FIX_COMMITS = ['6ab1b61', 'aa5da3f', '23893cd', 'b2f43bf', '6457cb8']
 NOTES = ('Every check: proof gate (full coq build, forbidden-construct scan, Print Assumptions allow-list = empty) '
          '+ correspondence (extracted model vs real code on corpus + generated cases) + model-free oracle; '
          'known findings in known_findings.json. See DESIGN.md.')
@@ -45,3 +45,28 @@ CLAIMED['C03'] = dict(
          'Oracle: replaying the recorded trace with all non-genuine deliveries replaced by timeouts through the real code must give the same sends and rounds.',
     note=STRAT_NOTE + ' Multi-tracer isolation is proved as trace-id rejection; UDP/TCP tracers (trace id 0) rely on distinct ports, which is an OS-level guarantee outside the model.',
     technique='Coq proof (case analysis of recv_response over the invariant) + trace replay + with/without differential oracle')
+
+STATE_NOTE = ('trusted: Coq kernel; hand-written model of state.rs / flows.rs (Core/State.v, Core/Flows.v; f64 statistics as exact rationals) tied to the code by applying '
+              'generated round histories to the real State::update_from_round and comparing every public getter with the extracted model; no axioms. IEEE-754 rounding is not modelled.')
+CLAIMED['C05'] = dict(
+    text='Coq theorems for every sequence of aggregator updates of a hop: counts, total time, best/worst/last equal the direct recomputation from the list of round-trip times; '
+         'recv+failed <= sent, address counts sum to recv, fwd+bwd loss <= unanswered, history <= sample limit, best*n <= total <= worst*n; running mean = arithmetic mean, '
+         'Welford accumulator = sum of squared deviations, average jitter = mean of successive differences (exact rationals). Oracle: independent two-pass recomputation in Rust.',
+    note=STATE_NOTE + ' jinta (RFC 3550 recurrence) and the forward/backward loss classification are compared by correspondence and oracle only.',
+    technique='Coq proof (invariant over hop updates; field/ring over Q for the running statistics) + differential testing + independent recomputation oracle')
+CLAIMED['C10'] = dict(
+    text='Coq theorems for every history of published rounds of the shape the strategy produces: applying rounds never faults, highest = max path length, lowest = least probed ttl, '
+         'the hop list is the gap-free ascending window lowest..highest (empty when nothing was probed or nothing answered), probed hops carry their own ttl, the round marker is the latest path length, '
+         'querying hops / target hop never faults; strategy side: the published path length is 0 or within first_ttl..254.',
+    note=STATE_NOTE + ' That the target distance equals the true distance on a stable path is checked by the simulator oracle, not proved; the link "every published round contains a probe with ttl <= largest_ttl" is exercised, not proved.',
+    technique='Coq proof (window invariant by induction over rounds) + differential testing + simulator ground-truth oracle')
+CLAIMED['C15'] = dict(
+    text='Coq theorems: a matching check selects an entry that covers the round flow (after merge) and only extends it; ids are dense from 1 in registration order; at most one flow is added per round; '
+         'the number of flows never exceeds max_flows; a round is attributed to a covering flow also when the registry is saturated and is left unattributed only when saturated and every entry conflicts.',
+    note=STATE_NOTE + ' Per-flow statistics = statistics of exactly the attributed rounds is checked by the re-attribution oracle (same aggregator code per flow), not proved separately.',
+    technique='Coq proof (list induction on the registry; state invariant) + differential testing + independent re-attribution oracle')
+CLAIMED['C19'] = dict(
+    text='Coq theorems: a responding hop is NAT-detected iff its quoted checksum differs from the previous responding hop (first hop: from the checksum sent); the carried checksum is the one just quoted; '
+         'the per-round fold equals the declarative specification; only IPv4/UDP/Dublin responses carry checksums (all else stays not-applicable); no rewriting => never detected; one rewriting device => detected exactly at the first responding hop at or beyond it.',
+    note=STATE_NOTE + ' The expected checksum recomputation from quoted ports/length/pattern (Ipv4::calc_udp_checksum) belongs to the receive-path model (C02/C04 slice).',
+    technique='Coq proof (case analysis + list induction) + differential testing + per-round specification oracle')
